@@ -68,4 +68,57 @@ PROPS = {
         "assumptions": ["local operations are valid where committed (documented contract; the editing API guarantees it, C19)",
                         "the server is a correct version chain (C08)"],
     },
+    "C02": {
+        "module": "TcVerif.Props.C02",
+        "theorems": ["Tc.C02_no_out_of_sync", "Tc.C02_reject_is_never_fatal", "Tc.C02_convergence",
+                     "Tc.C02_inflight_invariant", "Tc.C02_pending_changes", "Tc.C01_exec_reachable"],
+        "leanchecker_modules": ["TcVerif.Proofs.SyncInv", "TcVerif.Proofs.SyncExec"],
+        "runs": [
+            {"family": "hist", "flags": ["--stepped"], "quick": {"cases": 400, "max_len": 40}, "thorough": {"cases": 20000, "max_len": 90}},
+        ],
+        "judge_preds": ["converged", "invariant", "no-out-of-sync"],
+        "nontrivial": nt_reject,
+        "rule": "histories as for C01 in which syncs are begun (B) and then advanced one server request at a time (T) in a random interleaving "
+                "with other replicas' requests, commits and whole syncs, plus rare aborts; the real Replica::sync futures are polled "
+                "by hand and parked at a gate inside the harness-side Server, so every interleaving replays exactly; non-trivial = some "
+                "add_version was rejected with ExpectedParentVersion (a race was lost and retried); distinct by SHA-1 of the case lines",
+        "trusted_base": TB_SYNC,
+        "assumptions": ["each server request is atomic (C08/C09 for the real backends)", "valid local operations", "fresh version ids"],
+    },
+    "C04": {
+        "module": "TcVerif.Props.C04",
+        "theorems": ["Tc.C04_abort_restores", "Tc.C04_invariant_always", "Tc.C04_self_cancel", "Tc.C04_pull_own_version",
+                     "Tc.C04_repeat_converges", "Tc.C04_never_stuck", "Tc.C01_exec_reachable"],
+        "leanchecker_modules": ["TcVerif.Proofs.Ot", "TcVerif.Proofs.SyncInv"],
+        "runs": [
+            {"family": "hist", "flags": ["--faults"], "quick": {"cases": 400, "max_len": 35}, "thorough": {"cases": 15000, "max_len": 80}},
+            {"family": "hist", "flags": ["--faults", "--stepped"], "quick": {"cases": 150, "max_len": 40}, "thorough": {"cases": 8000, "max_len": 80}},
+        ],
+        "judge_preds": ["converged", "invariant", "no-out-of-sync"],
+        "nontrivial": nt_fault,
+        "rule": "histories as for C01/C02 with faulty syncs: the j-th server request fails before its effect / after its effect (reply lost), "
+                "or the k-th StorageTxn call stops the process (every later storage call and server request fails too) or returns one error; "
+                "20% of cases keep replicas on SQLite; after the history every replica syncs fault-free twice; non-trivial = a sync was "
+                "aborted in a case that also pushed versions; distinct by SHA-1 of the case lines",
+        "trusted_base": TB_SYNC + ["SQLite leg: an uncommitted transaction is rolled back (C06)"],
+        "assumptions": ["a stopped process makes no further request", "valid local operations", "the server is a correct version chain"],
+    },
+    "C12": {
+        "module": "TcVerif.Props.C12",
+        "theorems": ["Tc.C12_snapshot_is_chain_state", "Tc.C12_uploaded_is_chain_state", "Tc.C12_fresh_from_snapshot",
+                     "Tc.C12_nonempty_never_replaced", "Tc.C12_urgency_gate", "Tc.C01_exec_reachable"],
+        "leanchecker_modules": ["TcVerif.Proofs.SyncInv"],
+        "runs": [
+            {"family": "hist", "flags": ["--snapshots"], "quick": {"cases": 300, "max_len": 35}, "thorough": {"cases": 10000, "max_len": 80}},
+            {"family": "hist", "flags": ["--snapshots", "--stepped"], "quick": {"cases": 100, "max_len": 35}, "thorough": {"cases": 5000, "max_len": 80}},
+        ],
+        "judge_preds": ["snapshot", "converged", "invariant"],
+        "nontrivial": nt_snapshot,
+        "rule": "histories as for C01 with server urgency none/low/high per sync and avoid_snapshots on/off; in every case the server, once "
+                "a snapshot exists, discards all earlier versions and a replica that was never used joins (first a sync, then edits); the "
+                "snapshot bytes the harness server receives are inflated and parsed independently and compared with the chain state of "
+                "their version computed by the Lean model from the JSON versions the server received; non-trivial = a snapshot was uploaded",
+        "trusted_base": TB_SYNC + ["zlib (flate2) inflates what it deflated; the harness decodes snapshots with flate2 + serde_json::Value"],
+        "assumptions": ["valid local operations", "the server is a correct version chain"],
+    },
 }
